@@ -97,7 +97,7 @@ def task_name() -> str:
     return t.get_name() if t else '?'
 
 
-def make_plugin(w: World):
+def make_plugin(w: World, tag: str = 'G'):
     from nextline.plugin.spec import hookimpl
 
     class GatePlugin:
@@ -108,7 +108,10 @@ def make_plugin(w: World):
             ctx = kw.get('context')
             ev = kw.get('event')
             ra = ctx.run_arg if ctx is not None else None
-            info = dict(k='hook', hook=hook, run_arg=ra is not None, run_no=(ra.run_no if ra else None), task=task_name())
+            info = dict(k='hook' if tag == 'G' else 'hook2', plugin=tag, hook=hook, run_arg=ra is not None, run_no=(ra.run_no if ra else None), task=task_name())
+            if tag != 'G':
+                w.log(**info)
+                return
             if ev is not None:
                 info['ev_run_no'] = getattr(ev, 'run_no', None)
                 if hook in ('on_start_prompt', 'on_end_prompt', 'on_start_trace', 'on_end_trace'):
@@ -321,6 +324,17 @@ async def run_scenario(w: World):
                     break
             if not done:
                 w.log(k='release_miss', hook=hook, want=want)
+        elif op == 'register':
+            # a second, passive plugin (un)registered through the public API between hook calls
+            w.extra_plugins = getattr(w, 'extra_plugins', {})
+            w.extra_plugins[step[1]] = make_plugin(w, step[1])
+            w.nl.register(w.extra_plugins[step[1]])
+            w.log(k='registered', plugin=step[1])
+        elif op == 'unregister':
+            pl = getattr(w, 'extra_plugins', {}).pop(step[1], None)
+            if pl is not None:
+                w.nl.unregister(plugin=pl)
+            w.log(k='unregistered', plugin=step[1])
         elif op == 'mark':
             w.log(k='mark', n=step[1])
         elif op == 'release_all':
